@@ -101,7 +101,7 @@ def run(seed, tier, lean) -> Result:
                       'compiler: as one file, re-formatted (comments, odd spacing, redundant parentheses), split over included files in order, and '
                       'arbitrarily (compared as sets); coreLang from the shipped .mar; each compiled text also through the Lean model; token streams of '
                       'the real lexer vs the model; non-trivial = the specification has a nested set/collect expression and a TTC with >= 2 operators')
-    n = 120 if tier == 'quick' else 5000
+    n = 120 if tier == 'quick' else 720
     pending = []
     for i in range(n):
         r = random.Random(rnd.getrandbits(48))
